@@ -255,8 +255,8 @@ def judge(case):
             root_cause = ""
             if any(x[0] == "pred" and x[1] == "nth" for x in fml.walk(f)):
                 root_cause = ":nth"
-            elif count_on_recursive_type(cg, f, root):
-                root_cause = ":count_on_recursive_type"
+            # (":count_on_recursive_type" was a qualifier until the finding was repaired in /repo 11e9a75 + follow-up;
+            # a recurrence is reported as a plain solution:violates_constraint)
             elif negated_count(f):
                 root_cause = ":negated_count"
             viol.append({"sig": "solution:violates_constraint%s" % root_cause, "index": i, "constraint": obs["text"], "string": s,
